@@ -19,7 +19,12 @@ vf.gen.streamdoc / vf.gen.pdfw):
             apply_tiff_predictor colours 1-4; paeth_predictor on a value lattice.
   predrand  random geometries (columns <= 70, colours 1-4 (few 5-8), many rows).
   big       payloads of 5 KiB - 200 KiB through LZW (table overflow, all code
-            widths) alone and in chains, directly and through a document.
+            widths) alone and in chains, with and without predictor, through a
+            document.
+  delim     unfiltered streams, exhaustive: leading edge x trailing edge (17 each:
+            CR, LF, CRLF, NUL, 'endstream', 'stream\r\n', ...) x EOL after `stream`
+            x EOL before `endstream` x Length direct / indirect before / indirect
+            after x separator between `>>` and `stream`; two streams per file.
 
 Monitor: byte equality of `PDFDocument.getobj(n).get_data()` (and of
 `get_rawdata()` with the encoded bytes beforehand) resp. of the decoder's
@@ -76,47 +81,76 @@ assert len(ALL_CHAINS) == 156
 
 
 def minimums(tier: str) -> Dict[str, int]:
+    # deterministic counters (numbers of shards x cases) are demanded exactly; random ones at about half of
+    # what an intact tree shows (they vary by a few per cent between seeds)
     q = tier == "quick"
     return {
-        "evaluations": 15000 if q else 400000,
-        "distinct": 8000 if q else 200000,
-        "doc_streams": 1200 if q else 20000,
+        "evaluations": 232796 if q else 2004820,
+        "distinct": 180000 if q else 1500000,
+        "doc_streams": 64128 if q else 448896,
+        "delim_cases": 34680 if q else 208080,
+        "big_streams": 128 if q else 896,
+        "pngexh_cases": 74880 if q else 712320,
+        "predrand_cases": 12000 if q else 240000,
+        "tiff_cases": 2304 if q else 11520,
+        "paeth_triples": 32768 if q else 531441,
         "seen:chains": 156,
         "seen:row0_filters": 5,
         "seen:png_pred_values": 6,
+        "seen:tiff_pred_values": 1,
         "seen:lzw_widths": 4,
-        "lzw_clears_full": 20 if q else 400,
-        "lzw_kwkwk": 1000 if q else 50000,
-        "direct:LZW": 150 if q else 3000,
-        "direct:RL": 150 if q else 3000,
-        "direct:A85": 150 if q else 3000,
-        "direct:AHx": 150 if q else 3000,
-        "pngexh_cases": 10000 if q else 300000,
-        "tiff_cases": 100 if q else 2000,
-        "paeth_triples": 5000 if q else 100000,
-        "length:indirect_after": 150 if q else 3000,
-        "length:indirect_before": 150 if q else 3000,
-        "length:direct": 150 if q else 3000,
-        "kw_eol:crlf": 300 if q else 5000,
-        "kw_eol:lf": 300 if q else 5000,
-        "xrefstream_docs": 40 if q else 600,
-        "payload:adv": 100 if q else 2000,
-        "payload:edges": 100 if q else 2000,
-        "doc_pred_stages": 150 if q else 3000,
-        "geom:bpc1": 500 if q else 10000,
-        "geom:multicolor": 2000 if q else 50000,
-        "big_streams": 16 if q else 300,
+        "seen:delim_edges": 17,
+        "seen:pngexh_geometries": 8,
+        "seen:encoder_spellings": 55,
+        "lzw_clears_full": 40 if q else 3000,
+        "lzw_clears_early": 10000 if q else 250000,
+        "lzw_kwkwk": 80000 if q else 1700000,
+        "lzw_short_matches": 100000 if q else 4500000,
+        "direct:LZW": 11200 if q else 96000,
+        "direct:RL": 11200 if q else 96000,
+        "direct:A85": 11200 if q else 96000,
+        "direct:AHx": 11200 if q else 96000,
+        "chainlen:0": 3000 if q else 20000,
+        "chainlen:1": 7000 if q else 45000,
+        "chainlen:2": 6000 if q else 40000,
+        "chainlen:3": 15000 if q else 100000,
+        "length:indirect_after": 14000 if q else 90000,
+        "length:indirect_before": 14000 if q else 90000,
+        "length:direct": 14000 if q else 90000,
+        "xs_length:indirect_after": 2000 if q else 13000,
+        "kw_eol:crlf": 20000 if q else 130000,
+        "kw_eol:lf": 20000 if q else 130000,
+        "end_eol:none": 5000 if q else 30000,
+        "end_eol:cr": 5000 if q else 30000,
+        "end_eol:crlf": 5000 if q else 30000,
+        "filter_form:name": 2500 if q else 17000,
+        "filter_ref:indirect": 5000 if q else 35000,
+        "filter_ref:elems_indirect": 5000 if q else 35000,
+        "parms_form:dict": 1000 if q else 7000,
+        "parms_form:array": 10000 if q else 70000,
+        "parms_ref:indirect": 3000 if q else 20000,
+        "parms_ref:elems_indirect": 3000 if q else 20000,
+        "abbreviated_names": 15000 if q else 100000,
+        "escaped_names": 4500 if q else 30000,
+        "xrefstream_docs": 2000 if q else 14000,
+        "strict_docs": 3000 if q else 20000,
+        "payload:adv": 7000 if q else 45000,
+        "payload:edges": 7000 if q else 45000,
+        "payload:empty": 3000 if q else 20000,
+        "doc_pred_stages": 11000 if q else 75000,
+        "geom:bpc1": 29000 if q else 230000,
+        "geom:multicolor": 39000 if q else 400000,
     }
 
 
 def shards(tier: str, seed: int) -> List[Dict[str, Any]]:
     q = tier == "quick"
     out: List[Dict[str, Any]] = []
-    ndoc = 16 if q else 96
+    ndoc = 16 if q else 64
     for k in range(ndoc):
-        out.append({"kind": "doc", "sub": k, "nstreams": 4000 if q else 9000, "offset": k * 41})
-    for k in range(8 if q else 32):
-        out.append({"kind": "direct", "sub": 100 + k, "n": 700 if q else 3000})
+        out.append({"kind": "doc", "sub": k, "nstreams": 4000 if q else 7000, "offset": k * 41})
+    for k in range(8 if q else 24):
+        out.append({"kind": "direct", "sub": 100 + k, "n": 700 if q else 2000})
     # exhaustive row-filter assignments: one shard per (bpc, colours)
     for bpc in (8, 1):
         for colors in (1, 2, 3, 4):
